@@ -360,6 +360,24 @@ struct ReplayFile {
     failure: String,
 }
 
+/// Draw the workload and compute the sequential specification inside a (single-threaded,
+/// one-iteration) shuttle execution: a change that puts shuttle-instrumented state into the
+/// compiled scanner must not make the harness itself panic for running outside an execution.
+fn prepare(seed: u64, widx: u64) -> (Arc<Workload>, Arc<Vec<Vec<Res>>>) {
+    let slot: Arc<Mutex<Option<(Workload, Vec<Vec<Res>>)>>> = Arc::new(Mutex::new(None));
+    let s2 = slot.clone();
+    let mut cfg = ShuttleConfig::new();
+    cfg.failure_persistence = FailurePersistence::None;
+    cfg.silence_warnings = true;
+    Runner::new(RandomScheduler::new_from_seed(0, 1), cfg).run(move || {
+        let w = gen_workload(seed, widx);
+        let e = expected(&w);
+        *s2.lock().unwrap() = Some((w, e));
+    });
+    let (w, e) = slot.lock().unwrap().take().expect("workload prepared");
+    (Arc::new(w), Arc::new(e))
+}
+
 fn run_one_scheduler(kind: &str, seed: u64, widx: u64, schedules: usize, w: &Arc<Workload>, exp: &Arc<Vec<Vec<Res>>>, dir: &std::path::Path) -> Result<(), String> {
     let _ = std::fs::remove_dir_all(dir);
     std::fs::create_dir_all(dir).map_err(|e| e.to_string())?;
@@ -433,8 +451,7 @@ fn main() {
             let mut workloads = 0u64;
             let mut pressure = 0u64;
             for widx in from..to {
-                let w = Arc::new(gen_workload(seed, widx));
-                let exp = Arc::new(expected(&w));
+                let (w, exp) = prepare(seed, widx);
                 workloads += 1;
                 if w.prefill > 0 {
                     pressure += 1;
@@ -494,8 +511,18 @@ fn main() {
         Some("replay") => {
             let p = pos.get(1).expect("replay file");
             let rf: ReplayFile = serde_json::from_str(&std::fs::read_to_string(p).expect("read replay")).expect("parse replay");
-            let w = Arc::new(rf.workload.clone());
-            let exp = Arc::new(expected(&w));
+            let wl = rf.workload.clone();
+            let slot: Arc<Mutex<Option<Vec<Vec<Res>>>>> = Arc::new(Mutex::new(None));
+            let s2 = slot.clone();
+            let wl2 = wl.clone();
+            let mut c0 = ShuttleConfig::new();
+            c0.failure_persistence = FailurePersistence::None;
+            c0.silence_warnings = true;
+            Runner::new(RandomScheduler::new_from_seed(0, 1), c0).run(move || {
+                *s2.lock().unwrap() = Some(expected(&wl2));
+            });
+            let w = Arc::new(wl);
+            let exp = Arc::new(slot.lock().unwrap().take().expect("expected results"));
             let widx = rf.workload_index;
             let schedule = rf.schedule.clone();
             let r = std::panic::catch_unwind(std::panic::AssertUnwindSafe(|| {
